@@ -108,6 +108,20 @@ def linearize(t, depth=0):
         return Lin({t: 1})
     if k == "enumcast":
         return linearize(t.a[1])
+    if k == "gamma":
+        c, a, b = t.a
+        la, lb = linearize(a), linearize(b)
+        if la.key() == lb.key():
+            return la
+        # lemma: γ(x > 0 ? x : 0) == x for x >= 0 (lengths), and the mirrored forms
+        if c.k == "op" and c.a[0] in (">", "!=") and is_const(c.a[2], 0) and lb.is_const() and lb.c == 0:
+            lc = linearize(c.a[1])
+            if lc.key() == la.key() and term_range(c.a[1])[0] == 0:
+                return la
+        if c.k == "op" and c.a[0] == "==" and is_const(c.a[2], 0) and la.is_const() and la.c == 0:
+            lc = linearize(c.a[1])
+            if lc.key() == lb.key() and term_range(c.a[1])[0] == 0:
+                return lb
     return Lin({t: 1})
 
 
@@ -415,11 +429,32 @@ def entails(facts, goal, extra_axioms=(), want_model=False):
     DROPPED[0] = 0
     try:
         fact_cases = [[]]
+        dnfs = []
         for f in facts:
             d = to_dnf(f, True)
             if not d:
                 return ("proved", None)  # contradictory facts: dead code
-            fact_cases = [x + y for x in fact_cases for y in d]
+            dnfs.append(d)
+        # single-alternative facts first, then disjunctive ones with pruning of infeasible partial cases
+        base = []
+        for d in dnfs:
+            if len(d) == 1:
+                base += d[0]
+        fact_cases = [base]
+        for d in sorted((d for d in dnfs if len(d) > 1), key=len):
+            new = []
+            for x in fact_cases:
+                for y in d:
+                    c = x + y
+                    atoms = set()
+                    for l in c:
+                        atoms |= l.atoms()
+                    if not fm_feasible(c + range_axioms(atoms))[0]:
+                        continue
+                    new.append(c)
+            fact_cases = new
+            if not fact_cases:
+                return ("proved", None)
             if len(fact_cases) > MAX_CASES:
                 raise TooManyCases()
         neg_goal = to_dnf(goal, False)
